@@ -1,10 +1,45 @@
 (* C18 — check, parse, repair and mutate agree with the constraint and with each other.
-   Only statements + `exact`; proofs are in Solver/ApiFacts.v.  Model: Solver/Api.v
+   Only statements + `exact`; proofs are in Solver/ApiFacts.v and (proof extension) Solver/ApiCompose.v,
+   ApiComposeEval.v, ApiInst.v, FreshIds.v, ApiComposeEx.v.  Model: Solver/Api.v
    (glue code of ISLaSolver.check/parse/repair/mutate; components are parameters).
-   Premises (definitions in ApiFacts.v) are what the component properties establish:
+
+   FIRST HALF (abstract components).  Premises (definitions in ApiFacts.v) are what the component
+   properties establish:
      parser_sound / parser_complete  (C10)   eval_definite / eval_correct (C03)
      subsolve_sound (C01)   mutant_valid (C12)   sat_respects_eqv (the specification
-     semantics sees neither node ids nor the shape of epsilon expansions). *)
+     semantics sees neither node ids nor the shape of epsilon expansions).
+
+   SECOND HALF (proof extension: CROSS-PROPERTY COMPOSITION).  The parameters are instantiated with
+   the component MODELS and the premises are derived from the component THEOREMS:
+     parser     earley_first = first tree of Earley.solver_parse (C10 model) with fresh node ids
+                (FreshIds.renum).  parser_sound: FULL for gram_ok grammars under the C10 guards
+                (C18_earley_parser_sound; no fuel condition).  parser_complete and
+                "SyntaxError <-> not in the language": under fuel_ok (C10's computable chart bound)
+                and no_oof (the model's out-of-fuel outcome of the tree ENUMERATION excluded — the
+                one thing C10_parse_member_outcomes_partial leaves open).
+     evaluator  isla_eval = EvalAtoms.m_evaluate (C03 model, concrete atoms), isla_sat = Semantics.sat.
+                eval_definite/eval_correct are derived POINTWISE (C18_isla_eval_ok) for every closed
+                valid tree with distinct ids that passes the boolean guard isla_guard (C03's fragment:
+                wfmb + narrowb on the instantiated formula, no numeric quantifier; plus: cst occurs
+                free, is not re-bound, root label not a numeral).  New for this: C18_models_inst,
+                instantiating the constant preserves |= (C03 listed it as missing).
+     mutator    mutant_valid from C12 (MutateFacts.mutate_valid) under mutant_is_run.
+   FULL now (no component premise at all): C18_check_str_spec_earley_isla,
+   C18_check_str_total_earley_isla, C18_parse_api_spec_earley_isla — for the concrete parser and
+   evaluator models, check(s) = true <-> the first Earley tree of s satisfies phi in the
+   specification semantics; verdict table of parse().  Side conditions: gram_ok, guards, guard_on s
+   (and fuel_ok, no_oof for the SyntaxError row).
+   STILL PREMISES: subsolve_sound (C01; `abstractions` is not modelled), for repair/mutate the
+   evaluator premise in its global form (isla_guard depends on the tree, repair/mutate evaluate
+   trees that come from the sub-solver), mutant_is_run, no_oof.
+   sat_respects_eqv for Semantics.sat: REFUTED in three precisely delimited classes
+   (C18_sat_respects_eqv_*_refuted: match expressions whose prefix tree spells out an epsilon
+   expansion, `count`/quantifier over the empty label "", formulas containing tree literals (ids));
+   the positive statement for the remaining formulas is NOT proved (C18_check_tree_str_earley keeps
+   sat_respects_eqv as a premise). *)
+From ISLA Require Import Earley EarleyPrune Semantics Eval EvalAtoms EvalFacts Mutate.
+From ISLA Require Import FreshIds ApiInst ApiCompose ApiComposeEval ApiComposeEx.
+(* Api / ApiFacts last: their names (eval_correct, TT, FF, START, ex_g, mutate_valid) win *)
 From ISLA Require Import Api ApiFacts GrammarFacts.
 
 (* check(str) is true exactly when the string parses and the parsed tree satisfies the constraint *)
@@ -194,3 +229,192 @@ Proof.
   split; reflexivity.
 Qed.
 Print Assumptions C18_nonvacuous.
+
+(* ====================================================================================== *)
+(* Proof extension: cross-property composition                                             *)
+(* ====================================================================================== *)
+
+(* ---- C10: the parser premises for the Earley model ---- *)
+Theorem C18_earley_parser_sound : forall g fxA fxB fuelf,
+  gram_ok g -> guards fxA fxB g -> parser_sound g (earley_first fxA fxB fuelf g).
+Proof. exact earley_parser_sound. Qed.
+Print Assumptions C18_earley_parser_sound.
+
+Theorem C18_earley_parser_complete : forall g fxA fxB fuelf,
+  gram_ok g -> guards fxA fxB g ->
+  (forall s, fuel_ok fuelf g s) -> (forall s, no_oof fxA fxB fuelf g s) ->
+  parser_complete g (earley_first fxA fxB fuelf g).
+Proof. exact earley_parser_complete. Qed.
+Print Assumptions C18_earley_parser_complete.
+
+(* under the side conditions the parser model answers a tree or SyntaxError and nothing else, so
+   reading "no tree" as SyntaxError (Api.parse_api) is faithful *)
+Theorem C18_earley_outcomes : forall g fxA fxB fuelf,
+  gram_ok g -> guards fxA fxB g -> forall s, fuel_ok fuelf g s -> no_oof fxA fxB fuelf g s ->
+  (L g Api.START s /\ exists t0 ts, earley_parse fxA fxB (fuelf s) g Api.START Api.START s 1 = Ok (t0 :: ts)) \/
+  (~ L g Api.START s /\ earley_parse fxA fxB (fuelf s) g Api.START Api.START s 1 = Raise SyntaxErr).
+Proof. exact earley_outcomes. Qed.
+Print Assumptions C18_earley_outcomes.
+
+Theorem C18_earley_syntaxerr_iff : forall g fxA fxB fuelf,
+  gram_ok g -> guards fxA fxB g -> forall s, fuel_ok fuelf g s -> no_oof fxA fxB fuelf g s ->
+  (solver_parse fxA fxB (fuelf s) g Api.START s = Raise SyntaxErr <-> ~ L g Api.START s).
+Proof. exact earley_syntaxerr_iff. Qed.
+Print Assumptions C18_earley_syntaxerr_iff.
+
+(* the ids of a parsed tree are pairwise different *)
+Theorem C18_earley_first_uniq : forall g fxA fxB fuelf s t,
+  earley_first fxA fxB fuelf g Api.START s = Some t -> NoDup (ids t).
+Proof. exact earley_first_uniq. Qed.
+Print Assumptions C18_earley_first_uniq.
+
+(* ---- check / parse with the parser premises discharged (abstract evaluator) ---- *)
+Theorem C18_check_str_spec_earley : forall g fxA fxB fuelf,
+  gram_ok g -> guards fxA fxB g -> forall sat eval s, eval_correct g sat eval ->
+  (check_str (earley_first fxA fxB fuelf g) eval s = Ok true <->
+   exists t, earley_first fxA fxB fuelf g Api.START s = Some t /\ sat t).
+Proof. exact check_str_spec_earley. Qed.
+Print Assumptions C18_check_str_spec_earley.
+
+Theorem C18_parse_api_spec_earley : forall g fxA fxB fuelf,
+  gram_ok g -> guards fxA fxB g -> forall sat eval s,
+  fuel_ok fuelf g s -> no_oof fxA fxB fuelf g s -> eval_definite g eval -> eval_correct g sat eval ->
+  (L g Api.START s /\ exists t, earley_first fxA fxB fuelf g Api.START s = Some t /\ good g t /\ yield t = s /\
+     NoDup (ids t) /\
+     ((sat t /\ parse_api (earley_first fxA fxB fuelf g) eval s Api.START false = Ok t /\
+       check_str (earley_first fxA fxB fuelf g) eval s = Ok true) \/
+      (~ sat t /\ parse_api (earley_first fxA fxB fuelf g) eval s Api.START false = Raise SemanticErr /\
+       check_str (earley_first fxA fxB fuelf g) eval s = Ok false))) \/
+  (~ L g Api.START s /\ earley_first fxA fxB fuelf g Api.START s = None /\
+     parse_api (earley_first fxA fxB fuelf g) eval s Api.START false = Raise SyntaxErr /\
+     check_str (earley_first fxA fxB fuelf g) eval s = Ok false).
+Proof. exact parse_api_spec_earley. Qed.
+Print Assumptions C18_parse_api_spec_earley.
+
+Theorem C18_check_tree_str_earley : forall g fxA fxB fuelf,
+  gram_ok g -> guards fxA fxB g -> forall sat eval t,
+  (forall s, fuel_ok fuelf g s) -> (forall s, no_oof fxA fxB fuelf g s) ->
+  eval_definite g eval -> eval_correct g sat eval ->
+  sat_respects_eqv g sat -> unambiguous g -> good g t ->
+  check_str (earley_first fxA fxB fuelf g) eval (yield t) = check_tree eval t.
+Proof. exact check_tree_str_earley. Qed.
+Print Assumptions C18_check_tree_str_earley.
+
+(* ---- C12: the mutator premise; repair / mutate on strings ---- *)
+Theorem C18_mutant_valid_c12 : forall g mutant,
+  good_grammar g -> mutant_is_run g mutant -> mutant_valid g mutant.
+Proof. exact mutant_valid_c12. Qed.
+Print Assumptions C18_mutant_valid_c12.
+
+Theorem C18_repair_str_valid_earley : forall g fxA fxB fuelf,
+  gram_ok g -> guards fxA fxB g ->
+  forall sat eval has_top sem_false abstractions subsolve safe_ok s t,
+  eval_correct g sat eval -> subsolve_sound g sat abstractions subsolve ->
+  repair_str (earley_first fxA fxB fuelf g) eval has_top sem_false abstractions subsolve safe_ok true s = Ok (Some t) ->
+  good g t /\ sat t.
+Proof. exact repair_str_valid_earley. Qed.
+Print Assumptions C18_repair_str_valid_earley.
+
+Theorem C18_mutate_str_valid_earley : forall g fxA fxB fuelf,
+  gram_ok g -> guards fxA fxB g ->
+  forall sat eval has_top sem_false abstractions subsolve safe_ok mutant s fuel t,
+  eval_correct g sat eval -> subsolve_sound g sat abstractions subsolve -> mutant_is_run g mutant ->
+  mutate_str (earley_first fxA fxB fuelf g) eval has_top sem_false abstractions subsolve safe_ok true mutant s fuel = Some (Ok t) ->
+  good g t /\ sat t.
+Proof. exact mutate_str_valid_earley. Qed.
+Print Assumptions C18_mutate_str_valid_earley.
+
+(* ---- C03: the evaluator premise for the evaluator model ---- *)
+(* instantiating the global constant by the reference tree preserves the specification semantics *)
+Theorem C18_models_inst : forall t cst,
+  uniq_ids t -> parse_dec (lbl t) = None -> forall f f',
+  cst_unbound cst f = true -> inst_const atom atom_inst t cst f = Ok f' ->
+  (models atom_denote t (upd env_empty cst (VPos [])) f <-> models atom_denote t env_empty f').
+Proof. exact models_inst. Qed.
+Print Assumptions C18_models_inst.
+
+(* evaluate() on the UNINSTANTIATED constraint is definite and equals t |= phi, for closed valid
+   trees with distinct ids inside C03's fragment *)
+Theorem C18_isla_eval_ok : forall g cst phi t,
+  good g t -> NoDup (ids t) -> isla_guard cst phi t = true ->
+  (isla_eval cst phi t = Ok TT \/ isla_eval cst phi t = Ok FF) /\
+  (isla_eval cst phi t = Ok TT <-> sat atom_denote t cst phi).
+Proof. exact isla_eval_ok. Qed.
+Print Assumptions C18_isla_eval_ok.
+
+(* ---- parser AND evaluator concrete: no component premise left ---- *)
+Theorem C18_check_str_spec_earley_isla : forall g fxA fxB fuelf cst phi,
+  gram_ok g -> guards fxA fxB g -> forall s, guard_on g fxA fxB fuelf cst phi s ->
+  (check_str (earley_first fxA fxB fuelf g) (isla_eval cst phi) s = Ok true <->
+   exists t, earley_first fxA fxB fuelf g Api.START s = Some t /\ sat atom_denote t cst phi).
+Proof. exact check_str_spec_composed. Qed.
+Print Assumptions C18_check_str_spec_earley_isla.
+
+Theorem C18_check_str_total_earley_isla : forall g fxA fxB fuelf cst phi,
+  gram_ok g -> guards fxA fxB g -> forall s, guard_on g fxA fxB fuelf cst phi s ->
+  (check_str (earley_first fxA fxB fuelf g) (isla_eval cst phi) s = Ok true /\
+     (exists t, earley_first fxA fxB fuelf g Api.START s = Some t /\ sat atom_denote t cst phi)) \/
+  (check_str (earley_first fxA fxB fuelf g) (isla_eval cst phi) s = Ok false /\
+     ~ (exists t, earley_first fxA fxB fuelf g Api.START s = Some t /\ sat atom_denote t cst phi)).
+Proof. exact check_str_total_composed. Qed.
+Print Assumptions C18_check_str_total_earley_isla.
+
+Theorem C18_parse_api_spec_earley_isla : forall g fxA fxB fuelf cst phi,
+  gram_ok g -> guards fxA fxB g -> forall s,
+  fuel_ok fuelf g s -> no_oof fxA fxB fuelf g s -> guard_on g fxA fxB fuelf cst phi s ->
+  (L g Api.START s /\ exists t, earley_first fxA fxB fuelf g Api.START s = Some t /\ good g t /\ yield t = s /\
+     ((sat atom_denote t cst phi /\
+       parse_api (earley_first fxA fxB fuelf g) (isla_eval cst phi) s Api.START false = Ok t /\
+       check_str (earley_first fxA fxB fuelf g) (isla_eval cst phi) s = Ok true) \/
+      (~ sat atom_denote t cst phi /\
+       parse_api (earley_first fxA fxB fuelf g) (isla_eval cst phi) s Api.START false = Raise SemanticErr /\
+       check_str (earley_first fxA fxB fuelf g) (isla_eval cst phi) s = Ok false))) \/
+  (~ L g Api.START s /\ earley_first fxA fxB fuelf g Api.START s = None /\
+     parse_api (earley_first fxA fxB fuelf g) (isla_eval cst phi) s Api.START false = Raise SyntaxErr /\
+     check_str (earley_first fxA fxB fuelf g) (isla_eval cst phi) s = Ok false).
+Proof. exact parse_api_spec_composed. Qed.
+Print Assumptions C18_parse_api_spec_earley_isla.
+
+(* non-vacuity: grammar <start> ::= <a>; <a> ::= "" | "x", constraint forall <a> v in start: v = "x",
+   pinned parser (fxA = fxB = false), fuel 100: every side condition holds for "x", "", "y", and
+   the three verdicts true / SemanticError / SyntaxError occur *)
+Example C18_composed_nonvacuous :
+  gram_ok ex_g /\ guards false false ex_g /\
+  (forall s, s = [120]%N \/ s = [] \/ s = [121]%N ->
+     fuel_ok cx_fuel ex_g s /\ guard_on ex_g false false cx_fuel cx_cst cx_phi s) /\
+  no_oof false false cx_fuel ex_g [120]%N /\ no_oof false false cx_fuel ex_g [] /\
+  no_oof false false cx_fuel ex_g [121]%N /\
+  check_str (earley_first false false cx_fuel ex_g) (isla_eval cx_cst cx_phi) [120]%N = Ok true /\
+  parse_api (earley_first false false cx_fuel ex_g) (isla_eval cx_cst cx_phi) [] Api.START false = Raise SemanticErr /\
+  parse_api (earley_first false false cx_fuel ex_g) (isla_eval cx_cst cx_phi) [121]%N Api.START false = Raise SyntaxErr.
+Proof. exact composed_nonvacuous. Qed.
+Print Assumptions C18_composed_nonvacuous.
+
+(* ---- sat_respects_eqv for the specification semantics: FALSE in general.
+   FULL STATEMENT (refuted):  forall g cst phi, sat_respects_eqv g (fun t => sat atom_denote t cst phi).
+   Witnesses delimit the failing classes:
+     (1) a match expression whose prefix tree contains a fuzzer-shaped epsilon expansion
+         (class K_mexpr_eps_shape of C03),
+     (2) `count` with the empty needle (likewise: a quantifier over the label ""),
+     (3) formulas containing a tree literal (already instantiated): ids matter.
+   The positive statement (formulas without tree literals, without epsilon expansions in prefix
+   trees, needles and quantifier types <> "") is NOT proved. ---- *)
+Theorem C18_sat_respects_eqv_mexpr_refuted :
+  good ex_g ex_eps_parser /\ good ex_g ex_eps_fuzzer /\ eqv ex_eps_parser ex_eps_fuzzer /\
+  ~ isla_sat cx_cst rx_phi ex_eps_parser /\ isla_sat cx_cst rx_phi ex_eps_fuzzer /\
+  ~ sat_respects_eqv ex_g (isla_sat cx_cst rx_phi).
+Proof. exact sat_respects_eqv_mexpr_refuted. Qed.
+Print Assumptions C18_sat_respects_eqv_mexpr_refuted.
+
+Theorem C18_sat_respects_eqv_count_eps_refuted :
+  ~ isla_sat cx_cst rc_phi ex_eps_parser /\ isla_sat cx_cst rc_phi ex_eps_fuzzer /\
+  ~ sat_respects_eqv ex_g (isla_sat cx_cst rc_phi).
+Proof. exact sat_respects_eqv_count_eps_refuted. Qed.
+Print Assumptions C18_sat_respects_eqv_count_eps_refuted.
+
+Theorem C18_sat_respects_eqv_ids_refuted :
+  good ex_g (renum 0 ex_eps_fuzzer) /\ eqv ex_eps_fuzzer (renum 0 ex_eps_fuzzer) /\
+  isla_sat cx_cst ri_phi ex_eps_fuzzer /\ ~ isla_sat cx_cst ri_phi (renum 0 ex_eps_fuzzer) /\
+  ~ sat_respects_eqv ex_g (isla_sat cx_cst ri_phi).
+Proof. exact sat_respects_eqv_ids_refuted. Qed.
+Print Assumptions C18_sat_respects_eqv_ids_refuted.
